@@ -1042,6 +1042,46 @@ func propOperandOrderEffects(c *Ctx) {
 			c.fail(Failure{Kind: "oracle", Op: op, Impl: st, Note: note})
 		}
 	}
+	// a function KEEPS the argument list it was handed: it still holds exactly its written arguments after the evaluation went on
+	for _, expr := range []string{"K(1, 2) + K(3, 4)", "K(K(1, 2), 5) * K(6, 7)", "K(1, 2) + Max(10, 20, 30) + K(3, 4) * Sum(5, 6, 7, 8)", "Array(K(1, 2), K(3, 4), K(5, 6))[1]"} {
+		op := "ordereff " + strRunes(expr)
+		c.record(op, true)
+		c.count("operand-order-effects")
+		note := ""
+		st := safeCall(func() string {
+			var kept [][]*variants.Variant
+			var seen []string
+			fns := functions.NewDefaultFunctionCollection()
+			fns.Add(functions.NewDelegatedFunction("K", func(p []*variants.Variant, o variants.IVariantOperations) (*variants.Variant, error) {
+				kept = append(kept, p)
+				var xs []string
+				for _, a := range p {
+					xs = append(xs, encVariant(a))
+				}
+				seen = append(seen, strings.Join(xs, ","))
+				return p[0], nil
+			}))
+			calc := calculator.NewExpressionCalculator()
+			if err := calc.SetExpression(expr); err != nil {
+				return "parse error " + errCode(err)
+			}
+			calc.EvaluateUsingVariablesAndFunctions(nil, fns)
+			for i, p := range kept {
+				var xs []string
+				for _, a := range p {
+					xs = append(xs, encVariant(a))
+				}
+				if now := strings.Join(xs, ","); now != seen[i] {
+					note = fmt.Sprintf("%q: call #%d of K received the arguments %s; the list it was handed reads %s after the evaluation went on", expr, i, seen[i], now)
+					return ""
+				}
+			}
+			return ""
+		})
+		if st != "" || note != "" {
+			c.fail(Failure{Kind: "oracle", Op: op, Impl: st, Note: note})
+		}
+	}
 	// text, then the tokens of another program that spell the same characters once decoded - and the other way round
 	for _, pr := range [][2]string{{"1+2", "'1'+'2'"}, {"7*3", "'7'*3"}, {"2+3*4", "'2'+3*4"}, {"10", "'10'"}, {"1<2", "'1'<'2'"}} {
 		for _, order := range [][]evalStep{{{expr: pr[0]}, {expr: pr[1], viaTokens: true}}, {{expr: pr[1], viaTokens: true}, {expr: pr[0]}}, {{expr: pr[0]}, {expr: pr[0]}, {expr: pr[1], viaTokens: true}, {expr: pr[0]}}} {
